@@ -91,6 +91,7 @@ type Exec struct {
 	panicsOK int  // >0: inside verifrt.Panics(f)
 	pending  []pendingAssert
 	snaps    []*snapNode
+	panics   []*panicState
 	syncMaps map[*Value]*Map
 	fs       *fsState
 	streams  map[*Value]*streamState
